@@ -568,8 +568,10 @@ def main(prop, tier="quick", seed=1, jobs=None, replay=None):
         "coverage": cov, "assumptions": list(getattr(mod, "ASSUMPTIONS", [])),
         "wall_s": round(time.time() - t0, 2), "violations": len(violations),
     }
-    os.makedirs(os.path.join(VERIF_DIR, "evidence"), exist_ok=True)
-    with open(os.path.join(VERIF_DIR, "evidence", f"{prop}.json"), "w", encoding="utf-8") as f:
+    # (runs against a scratch copy of the code - seeded changes, reverted repairs - write their evidence elsewhere)
+    evdir = os.environ.get("VERIF_EVIDENCE_DIR") or os.path.join(VERIF_DIR, "evidence")
+    os.makedirs(evdir, exist_ok=True)
+    with open(os.path.join(evdir, f"{prop}.json"), "w", encoding="utf-8") as f:
         json.dump(ev, f, indent=1, ensure_ascii=True, sort_keys=False)
         f.write("\n")
 
